@@ -830,6 +830,11 @@ async fn run(_tier: Tier) {
             return;
         }
     }
+    // One run in six lives in class CH (same records, another class).
+    if sim::chance("zone.class_ch", 1, 6) {
+        super::zonestore::set_zone_class(domain::base::iana::Class::CH);
+        sim::stat("probe.zone_in_class_ch");
+    }
     let all = universe_names();
     let n_names = 5 + sim::draw("focus.n_names", 8) as usize;
     let mut pool = all.clone();
